@@ -267,7 +267,7 @@ func c20(tier string, args []string) int {
 		reinitAndCheck(r, om, fmt.Sprintf("n=%d t=%d recorded ceremony", nt.n, nt.t), false, false)
 		reinitAndCheck(r, om, fmt.Sprintf("n=%d t=%d recorded ceremony, self-confirmations removed and re-added by the 0.1.4 adaptation", nt.n, nt.t), true, true)
 		omJ := om
-		omJ.Log = junkify(rec, om.Log)
+		omJ.Log = junkify(rec, om.Log, false)
 		reinitAndCheck(r, omJ, fmt.Sprintf("n=%d t=%d recorded ceremony with duplicated / badly signed / foreign-round messages in the dump", nt.n, nt.t), false, false)
 		scen += 3
 		// another delivery order of the original ceremony
